@@ -76,6 +76,15 @@ CHECKS["C02"] = dict(
                 quick=dict(timeout=300), thorough=dict(timeout=300))],
 )
 
+CHECKS["C04"] = dict(
+    technique="property-based testing (rapid): 4-way differential between Invoke/Stream/Collect/Transform of one compiled object plus a reference model; generated native-paradigm subsets, chunk plans, stream branches, state handlers, field mappings, injected failures",
+    level_text="Generated-input search over graphs of all four kinds (pregel, all-predecessor, workflow, chain) whose lambdas natively implement a generated non-empty subset of the four paradigms (all 15 subsets) with generated chunk plans incl. empty chunks; value and stream state handlers, stream branch conditions, input/output keys, workflow field mappings to map keys, nested graphs. The same compiled object is called through all four paradigms (inputs given whole or in a generated chunking); results (streams concatenated by an independent concatenation) must equal each other and the reference model, and an injected failure (error at call or error item mid-stream) must be reported by every paradigm. Held on everything explored.",
+    level_note="Duplicate-key fan-ins (merge failure for values, silently concatenated for streams) are not generated and skipped if they arise: the statement does not fix them. any-typed node inputs are not generated (the framework has no concatenation for interface-typed chunks).",
+    rule="rapid draws a GraphSpec with paradigm subsets/chunk plans/state/stream branches, an input, an input chunking and optionally a fault; non-trivial = >= 2 distinct native paradigm subsets among lambdas, a natively streaming producer with >= 2 chunks, >= 2 predicted executions and one of: fan-out, fan-in, stream branch, key wrapping, field mapping, state handler; distinct = FNV-1a of case JSON",
+    assumptions=GRAPH_ASSUME,
+    parts=[rapid_part("rapid", "compose", "TestC04", 3000, 30000, replay_test="TestC04Replay")],
+)
+
 # properties not claimed (with reason); everything else not in CHECKS is "not built yet"
 NOT_APPLICABLE = {}
 
